@@ -31,18 +31,18 @@ HASH_CLASSES = ['0', '1', '17', '4242']
 
 # (quick runs, thorough runs, quick wall cap s, thorough wall cap s)
 SIZES = {
-    'C01': (7000, 70000, 150, 1700),
+    'C01': (6000, 60000, 150, 1700),
     'C03': (5000, 50000, 150, 1700),
-    'C04': (4000, 40000, 150, 1700),
-    'C05': (4000, 40000, 150, 1700),
+    'C04': (3000, 30000, 150, 1700),
+    'C05': (3200, 32000, 150, 1700),
     'C06': (120, 1200, 150, 1700),
     'C07': (2000, 20000, 150, 1700),
     'C08': (4000, 40000, 150, 1700),
     'C10': (3000, 30000, 150, 1700),
-    'C11': (3500, 35000, 150, 1700),
-    'C12': (4500, 45000, 150, 1700),
+    'C11': (3000, 30000, 150, 1700),
+    'C12': (3000, 30000, 150, 1700),
     'C16': (40, 400, 150, 1700),
-    'C19': (3200, 32000, 150, 1700),
+    'C19': (2600, 26000, 150, 1700),
     'C20': (48, 480, 150, 1700),
 }
 
